@@ -1,0 +1,51 @@
+//go:build verif
+
+package connlimiter
+
+// VerifC18Counter gives the verification harness access to the unexported
+// counter type.
+type VerifC18Counter struct {
+	c counter
+}
+
+// VerifC18NewCounter returns a counter with the given field values.
+func VerifC18NewCounter(current, stop, resume uint64, isAccepting bool) (c *VerifC18Counter) {
+	return &VerifC18Counter{c: counter{
+		current:     current,
+		stop:        stop,
+		resume:      resume,
+		isAccepting: isAccepting,
+	}}
+}
+
+// Increment calls counter.increment.
+func (c *VerifC18Counter) Increment() (ok bool) { return c.c.increment() }
+
+// Decrement calls counter.decrement.
+func (c *VerifC18Counter) Decrement() { c.c.decrement() }
+
+// State returns the fields of the counter.
+func (c *VerifC18Counter) State() (current uint64, isAccepting bool) {
+	return c.c.current, c.c.isAccepting
+}
+
+// VerifC18Snapshot returns the state of the limiter's shared counter, read
+// under the limiter's lock.
+func VerifC18Snapshot(l *Limiter) (current, stop, resume uint64, isAccepting bool) {
+	l.counterCond.L.Lock()
+	defer l.counterCond.L.Unlock()
+
+	c := l.counter
+
+	return c.current, c.stop, c.resume, c.isAccepting
+}
+
+// VerifC18WakeAll broadcasts on the limiter's condition variable.  The harness
+// uses it when tearing a scenario down, so that goroutines left waiting by a
+// defective limiter do not pile up.
+func VerifC18WakeAll(l *Limiter) {
+	l.counterCond.L.Lock()
+	defer l.counterCond.L.Unlock()
+
+	l.counterCond.Broadcast()
+}
